@@ -75,7 +75,7 @@ func init() {
 	}
 	// disabled steps whose disabled.output something depends on (one-of ran/off, !ordisabled)
 	c09 = append(c09, &ir.Profile{Name: "c09-disabled", MinSteps: 2, MaxSteps: 3, Durs: []int64{0, 5, 40}, Tags: true, PDisabled: 60, PWaitFor: 20})
-	c09 = append(c09, &ir.Profile{Name: "c09-loop", MinSteps: 1, MaxSteps: 2, Durs: []int64{0, 1, 10}, Foreach: 70, PWaitFor: 20})
+	c09 = append(c09, &ir.Profile{Name: "c09-loop", ItemsFromStep: 30, MinSteps: 1, MaxSteps: 2, Durs: []int64{0, 1, 10}, Foreach: 70, PWaitFor: 20})
 	register(&PropDef{ID: "C09",
 		Gen: func(t *rapid.T) *Case {
 			c := genS1(t, "C09", c09, true)
@@ -118,7 +118,7 @@ func init() {
 		{Name: "c01-neverfail-island", MinSteps: 1, MaxSteps: 2, Durs: []int64{0, 5}, ErrOutput: true, OnlyErrOutputs: true, HangIsland: true, StructRefs: true},
 		{Name: "c01-neverfail", MinSteps: 1, MaxSteps: 3, Durs: []int64{0, 5, 50}, ErrOutput: true, OnlyErrOutputs: true, StructRefs: true, MaxOutputs: 2},
 		{Name: "c01-recovery", MinSteps: 2, MaxSteps: 4, Durs: []int64{0, 5, 50}, Modes: []string{"err", "alt"}, PBad: 40, PDisabled: 20, WaitOnNeverPath: 60, PWaitFor: 30, MaxOutputs: 2},
-		{Name: "c01-loops", MinSteps: 2, MaxSteps: 4, Durs: []int64{0, 5, 100}, Foreach: 50, Modes: []string{"err", "crash"}, PBad: 50, PDeployFail: 10, MaxOutputs: 2},
+		{Name: "c01-loops", ItemsFromStep: 30, MinSteps: 2, MaxSteps: 4, Durs: []int64{0, 5, 100}, Foreach: 50, Modes: []string{"err", "crash"}, PBad: 50, PDeployFail: 10, MaxOutputs: 2},
 		{Name: "c01-stop", MinSteps: 1, MaxSteps: 3, Durs: []int64{0, 5, 50}, StopIf: true},
 	}
 	register(&PropDef{ID: "C01",
@@ -166,7 +166,7 @@ func init() {
 	c07 := []*ir.Profile{
 		{Name: "c07-rterr", PluginArith: true, StructRefs: true, MinSteps: 1, MaxSteps: 4, Durs: []int64{0, 5}, RuntimeErr: 80, DeepExpr: true, PWaitFor: 20},
 		{Name: "c07-misbehave", PluginArith: true, StructRefs: true, MinSteps: 1, MaxSteps: 5, Durs: []int64{0, 5, 50}, Modes: []string{"panic", "badout", "crash", "err"}, PBad: 70, PDeployFail: 20, ErrOutput: true, MaxOutputs: 3, PErrPathRef: 60},
-		{Name: "c07-loops", MinSteps: 1, MaxSteps: 3, Durs: []int64{0, 5}, Foreach: 60, Modes: []string{"err", "crash"}, PBad: 40, ErrOutput: true, MaxOutputs: 2},
+		{Name: "c07-loops", ItemsFromStep: 50, OptionalItems: 50, MinSteps: 1, MaxSteps: 3, Durs: []int64{0, 5}, Foreach: 60, Modes: []string{"err", "crash"}, PBad: 40, ErrOutput: true, MaxOutputs: 2},
 	}
 	register(&PropDef{ID: "C07",
 		Gen: func(t *rapid.T) *Case {
@@ -204,7 +204,7 @@ func init() {
 	c08 := []*ir.Profile{
 		{Name: "c08-engine-outputs", StageRefs: 30, PSimple: 40, PluginArith: true, StructRefs: true, MinSteps: 1, MaxSteps: 4, Durs: []int64{0, 5, 50}, Modes: allBad, PBad: 60, PDeployFail: 30, PDisabled: 40, ErrOutput: true, MaxOutputs: 3, PErrPathRef: 50, PWaitFor: 20},
 		{Name: "c08-stage-objects", MinSteps: 2, MaxSteps: 3, Durs: []int64{0, 5}, Modes: []string{"err"}, PBad: 45, PSimple: 70, StageRefs: 80, PDisabled: 15, MaxOutputs: 1},
-		{Name: "c08-loops", MinSteps: 1, MaxSteps: 3, Durs: []int64{0, 5}, Foreach: 70, Modes: []string{"err", "alt"}, PBad: 40, ErrOutput: true, MaxOutputs: 2},
+		{Name: "c08-loops", ItemsFromStep: 30, MinSteps: 1, MaxSteps: 3, Durs: []int64{0, 5}, Foreach: 70, Modes: []string{"err", "alt"}, PBad: 40, ErrOutput: true, MaxOutputs: 2},
 		{Name: "c08-plain", HeteroList: 12, PluginArith: true, MinSteps: 1, MaxSteps: 5, Durs: someDurs, PWaitFor: 40, DeepExpr: true, MaxOutputs: 2},
 	}
 	register(&PropDef{ID: "C08",
@@ -230,7 +230,7 @@ func init() {
 	c15 := []*ir.Profile{
 		{Name: "c15-tags", MinSteps: 2, MaxSteps: 5, Durs: someDurs, Tags: true, PDisabled: 45, PWaitFor: 20, PDeploySlow: 30, MaxOutputs: 1},
 		{Name: "c15-tags-failing", MinSteps: 2, MaxSteps: 5, Durs: someDurs, Tags: true, Modes: []string{"err", "crash", "alt"}, PBad: 35, PDeployFail: 15, PDisabled: 35, PWaitFor: 20, MaxOutputs: 2, ErrOutput: true},
-		{Name: "c15-tags-loops", MinSteps: 2, MaxSteps: 4, Durs: []int64{0, 5, 50}, Tags: true, Foreach: 35, Modes: []string{"err"}, PBad: 25, PDisabled: 25, MaxOutputs: 1},
+		{Name: "c15-tags-loops", ItemsFromStep: 30, MinSteps: 2, MaxSteps: 4, Durs: []int64{0, 5, 50}, Tags: true, Foreach: 35, Modes: []string{"err"}, PBad: 25, PDisabled: 25, MaxOutputs: 1},
 		{Name: "c15-tags-hang", MinSteps: 2, MaxSteps: 4, Durs: []int64{0, 5, 50}, Tags: true, PDisabled: 30, SoftHang: true},
 	}
 	register(&PropDef{ID: "C15",
